@@ -197,14 +197,22 @@ section comp
 variable {Src Ctor Res Imp Mac Ord Err : Type}
 
 theorem compileBody_reset (st : Stages Src Ctor Res Imp Mac Ord Err) (o o' : Comp Ctor Res Imp Mac Ord) (src : Src)
-    (hc : o.ctor = o'.ctor) :
-    (compileBody st o src).2 = (compileBody st o' src).2 ∧
-    (compileBody st o src).1.res = (compileBody st o' src).1.res ∧
-    (compileBody st o src).1.imports = (compileBody st o' src).1.imports ∧
-    (compileBody st o src).1.macros = (compileBody st o' src).1.macros ∧
-    (compileBody st o src).1.ctor = o.ctor := by
+    (hc : o.ctor = o'.ctor) : compileBody st o src = compileBody st o' src := by
   unfold compileBody
   simp only [hc]
+
+/-- compile() on an object in ANY state gives the same object state afterwards — every result attribute (the four
+result tables, imports, macros, macro_resolution_order), the untouched constructor state — and the same exception as
+on any other object with the same constructor state, in particular a freshly constructed one. -/
+theorem compile_reset (st : Stages Src Ctor Res Imp Mac Ord Err) (o o' : Comp Ctor Res Imp Mac Ord) (src : Src)
+    (hc : o.ctor = o'.ctor) : compile st o src = compile st o' src := by
+  unfold compile
+  rw [compileBody_reset st o o' src hc]
+
+theorem compileBody_ctor (st : Stages Src Ctor Res Imp Mac Ord Err) (o : Comp Ctor Res Imp Mac Ord) (src : Src) :
+    (compileBody st o src).1.ctor = o.ctor := by
+  unfold compileBody
+  simp only
   split
   · split <;> simp
   · split
@@ -219,52 +227,32 @@ theorem compileBody_reset (st : Stages Src Ctor Res Imp Mac Ord Err) (o o' : Com
             · simp
             · split <;> simp
 
-/-- compile() on an object in any state gives the same results (res, imports, macros, exception) as on an object
-with the same constructor state in any other state — in particular a freshly constructed one — and leaves the
-constructor state alone. -/
-theorem compile_reset (st : Stages Src Ctor Res Imp Mac Ord Err) (o o' : Comp Ctor Res Imp Mac Ord) (src : Src)
-    (hc : o.ctor = o'.ctor) :
-    (compile st o src).2 = (compile st o' src).2 ∧
-    (compile st o src).1.res = (compile st o' src).1.res ∧
-    (compile st o src).1.imports = (compile st o' src).1.imports ∧
-    (compile st o src).1.macros = (compile st o' src).1.macros ∧
+/-- compile() never changes the constructor state -/
+theorem compile_ctor (st : Stages Src Ctor Res Imp Mac Ord Err) (o : Comp Ctor Res Imp Mac Ord) (src : Src) :
     (compile st o src).1.ctor = o.ctor := by
-  obtain ⟨h1, h2, h3, h4, h5⟩ := compileBody_reset st o o' src hc
+  have h := compileBody_ctor st o src
   unfold compile
-  cases ha : compileBody st o src with
+  cases hb : compileBody st o src with
   | mk a ea =>
-    cases hb : compileBody st o' src with
-    | mk b eb =>
-      rw [ha, hb] at h1 h2 h3 h4
-      rw [ha] at h5
-      simp only at h1 h2 h3 h4 h5
-      subst h1
-      cases ea with
-      | none => exact ⟨rfl, h2, h3, h4, h5⟩
-      | some e => exact ⟨rfl, rfl, h3, h4, h5⟩
+    rw [hb] at h
+    cases ea <;> exact h
 
-/-- after any sequence of earlier compile() calls on the object -/
-theorem compile_reset_after_history (st : Stages Src Ctor Res Imp Mac Ord Err) (c : Ctor) (ord0 : Ord)
-    (before : List Src) (src : Src) :
-    let o := compileMany st (Comp.init st c ord0) before
-    (compile st o src).2 = (compile st (Comp.init st c ord0) src).2 ∧
-    (compile st o src).1.res = (compile st (Comp.init st c ord0) src).1.res ∧
-    (compile st o src).1.imports = (compile st (Comp.init st c ord0) src).1.imports ∧
-    (compile st o src).1.macros = (compile st (Comp.init st c ord0) src).1.macros := by
+/-- after any sequence of earlier compile() calls on the object: the same as on a freshly constructed object -/
+theorem compile_reset_after_history (st : Stages Src Ctor Res Imp Mac Ord Err) (c : Ctor) (before : List Src) (src : Src) :
+    compile st (compileMany st (Comp.init st c) before) src = compile st (Comp.init st c) src := by
   have hc : ∀ (l : List Src) (o : Comp Ctor Res Imp Mac Ord), (compileMany st o l).ctor = o.ctor := by
     intro l
     induction l with
     | nil => intro o; rfl
-    | cons s ss ih => intro o; simp only [compileMany]; rw [ih, (compile_reset st o o s rfl).2.2.2.2]
-  intro o
-  have := compile_reset st o (Comp.init st c ord0) src (hc before _)
-  exact ⟨this.1, this.2.1, this.2.2.1, this.2.2.2.1⟩
+    | cons s ss ih => intro o; simp only [compileMany]; rw [ih, compile_ctor]
+  exact compile_reset st _ _ src (hc before _)
 
-/-- `macro_resolution_order` is NOT among the reset attributes: a source marked `is-ssb-script` leaves the order computed
-for the previous file on the object (Src: true = SsbScript-marked file; Ord: a number) -/
+/-- pinned witness (the model instance used before /repo 9934639 to show that macro_resolution_order was NOT reset): a source
+marked `is-ssb-script` after a file with macros now leaves the empty order, as on a fresh object -/
 def stW : Stages Bool Unit Nat Unit Unit Nat Unit where
   emptyImp := ()
   emptyMac := ()
+  emptyOrd := 0
   isSsbScript := id
   ssbCompile := fun _ => .ok 0
   parseImports := fun _ => .ok ()
@@ -276,9 +264,10 @@ def stW : Stages Bool Unit Nat Unit Unit Nat Unit where
   routines := fun _ _ _ => .ok 7
   convertErr := id
 
-theorem compile_order_not_reset_counterexample :
-    (compile stW (compileMany stW (Comp.init stW () 0) [false]) true).1.order = 1 ∧
-    (compile stW (Comp.init stW () 0) true).1.order = 0 := by
+theorem compile_order_reset_pinned :
+    (compileMany stW (Comp.init stW ()) [false]).order = 1 ∧
+    (compile stW (compileMany stW (Comp.init stW ()) [false]) true).1.order = 0 ∧
+    (compile stW (Comp.init stW ()) true).1.order = 0 := by
   decide
 
 end comp
